@@ -794,6 +794,38 @@ int main(int argc, char** argv) {
             if (hexVec(ra) != hexVec(rc)) log.fail(std::string("self-valued-scalar.") + nm[which], std::string(1, sz.v) + " n=" + std::to_string(sz.n) + " x=" + hexVec(x) + " x op= x.value(): " + hexVec(ra) + " x op= copy: " + hexVec(rc));
             else log.ok();
         }
+        // (2c) dynamically sized evaluations change their number of derivatives by assignment, across the boundary
+        // between the in-object buffer (<= 6 here) and heap storage, in both directions and repeatedly: after every
+        // assignment the object must read as its source, and compute like it
+        for (long it = 0; it < mixes / 4; ++it) {
+            static const int sizes[] = { 1, 2, 5, 6, 7, 8, 12, 16 };
+            Dyn acc = fromVec<Dyn>(sizes[rng.below(8)], [&] { std::vector<double> x(17); for (auto& v : x) v = randVal(rng); return x; }());
+            std::string hist = "n=" + std::to_string(acc.size());
+            bool good = true; std::string what;
+            for (int step = 0; step < 6 && good; ++step) {
+                const int n = sizes[rng.below(8)];
+                std::vector<double> x(n + 1); for (auto& v : x) v = -2.0 + 4.0 * rng.unit();
+                Dyn src = fromVec<Dyn>(n, x);
+                const int how = rng.range(0, 3);
+                static const char* hn[] = { "=lvalue", "=move", "=copy-of-copy", "swap-through-temp" };
+                hist += std::string(" ") + hn[how] + "(" + std::to_string(n) + ")";
+                switch (how) {
+                case 0: acc = src; break;
+                case 1: { Dyn tmp = src; acc = std::move(tmp); break; }
+                case 2: { Dyn tmp(src); Dyn tmp2 = tmp; acc = tmp2; break; }
+                default: { Dyn tmp = acc; acc = src; tmp = acc; acc = tmp; break; }
+                }
+                if (hexVec(toVec(acc)) != hexVec(x)) { good = false; what = "reads " + hexVec(toVec(acc)) + " expected " + hexVec(x); break; }
+                Dyn twice = acc + acc; Dyn sq = acc; sq *= acc;
+                std::vector<double> e2(n + 1), es(n + 1);
+                for (int j = 0; j <= n; ++j) e2[j] = x[j] + x[j];
+                es[0] = x[0] * x[0]; for (int j = 1; j <= n; ++j) es[j] = x[j] * x[0] + x[j] * x[0];
+                if (hexVec(toVec(twice)) != hexVec(e2)) { good = false; what = "acc + acc = " + hexVec(toVec(twice)) + " expected " + hexVec(e2); }
+                else if (hexVec(toVec(sq)) != hexVec(es)) { good = false; what = "acc * acc = " + hexVec(toVec(sq)) + " expected " + hexVec(es); }
+            }
+            ++st["dynamic-resize-histories"];
+            if (!good) log.fail("dynamic-storage-transition", hist + ": " + what); else log.ok();
+        }
         // (3) derivatives == central finite differences of value() (real code on both sides)
         const long fds = thorough ? 40000 : 3000;
         for (long it = 0; it < fds; ++it) {
